@@ -938,6 +938,70 @@ Plan gen_c18(uint64_t seed, bool th) {
   return g.p;
 }
 
+// ---------------------------------------------------------------- C14: allocation failure at every point of one operation
+
+Plan gen_c14(uint64_t seed, bool th) {
+  G g(seed, th);
+  g.p.prop = "C14";
+  g.p.seed = seed;
+  g.sh.nclients = (int)g.r.range(3, 4);
+  static const char *pool[] = {"com.example.a", "com.example.b", "org.test.Svc"};
+  g.sh.names = {pool[g.r.below(3)], pool[g.r.below(3)]};
+  g.p.cfg["oom.enumerate"] = "1";
+  if (g.r.pct(30)) g.p.cfg["policy.spec"] = pol::encode(requested_replies_only_policy());
+  g.connect_all(false, true);
+  // a history that builds some state: names with queues, rules, an outstanding call
+  int nh = (int)g.r.range(2, th ? 14 : 8);
+  for (int i = 0; i < nh; i++) {
+    int c = g.a_client();
+    int x = (int)g.r.below(100);
+    if (x < 45) g.add(g.mk("reqname", c, {(int64_t)g.r.below(8), -1}, {g.a_name()}));
+    else if (x < 55) g.add(g.mk("relname", c, {-1}, {g.a_name()}));
+    else if (x < 75) { bool vh; std::string rule = gen_rule(g, &vh); if (vh) g.add(g.mk("addmatch", c, {-1}, {rule})); }
+    else if (x < 90) g.add(g.mk("send", c, {1, 0, -1}, {g.r.pct(50) ? g.a_name() : "$u" + std::to_string(g.a_client()), "/obj", "com.example.Iface", "Do", "", ""}));
+    else g.add(g.mk("reply", c, {0, 0, -1}));
+    g.add(g.bus_step(3));
+  }
+  g.add(g.mk("check"));
+  // the operation under test
+  int c = g.a_client();
+  int op = (int)g.r.below(100);
+  if (op < 22) g.add(g.mk("reqname", c, {(int64_t)g.r.below(8), -1}, {g.a_name()}));
+  else if (op < 32) g.add(g.mk("relname", c, {-1}, {g.a_name()}));
+  else if (op < 44) { bool vh; std::string rule = gen_rule(g, &vh); g.add(g.mk("addmatch", c, {-1}, {vh ? rule : std::string("type='signal',member='Do'")})); }
+  else if (op < 52) { g.add(g.mk("rmmatch", c, {-1}, {"type='signal',sender='org.freedesktop.DBus',member='NameOwnerChanged'"})); }
+  else if (op < 64) g.add(g.mk("send", c, {1, g.r.pct(20) ? 1 : 0, -1}, {g.r.pct(60) ? g.a_name() : "$u" + std::to_string(g.a_client()), "/obj", "com.example.Iface", "Do", "", "", "s:payload"}));
+  else if (op < 74) g.add(g.mk("send", c, {4, 0, -1}, {"", "/com/example/obj", "com.example.Iface", "Do", "", "", "s:a"}));
+  else if (op < 80) g.add(g.mk("reply", c, {0, (int64_t)g.r.below(2), -1}));
+  else if (op < 88) {
+    int ni = g.sh.nclients++;
+    g.add(g.mk("connect", ni, {0, 0, 1000 + ni, 0, 0}));
+    g.add(g.mk("auth", ni, {1}));
+    g.add(g.bus_step(3));
+    g.add(g.mk("drain", ni));
+    g.add(g.mk("hello", ni, {-1}));
+  }
+  else if (op < 94) g.add(g.mk("becomemonitor", c, {0, -1}, {}));
+  else g.add(g.mk("query", c, {-1}, {g.r.pct(50) ? "ListQueuedOwners" : "ListNames", g.a_name()}));
+  g.add(g.mk("oombus", -1, {4, (int64_t)(g.r.next() & 0x7fffffff)}));
+  g.add(g.mk("oomcheck"));
+  g.add(g.mk("oomretry"));
+  g.add(g.bus_step(3));
+  g.add(g.mk("check"));
+  // inspector: the state through the protocol, then rules by behaviour
+  for (auto &n : g.sh.names) {
+    g.add(g.mk("query", 0, {-1}, {"ListQueuedOwners", n}));
+    g.add(g.mk("query", 1, {-1}, {"GetNameOwner", n}));
+  }
+  g.add(g.mk("query", 0, {-1}, {"ListNames", ""}));
+  g.add(g.mk("send", 1, {4, 0, -1}, {"", "/com/example/obj", "com.example.Iface", "Do", "", "", "s:a"}));
+  g.add(g.mk("send", 0, {4, 0, -1}, {"", "/", "org.test.Other", "Get", "", "", "s:/aa/bb/"}));
+  g.add(g.mk("reply", g.a_client(), {0, 0, -1}));
+  g.add(g.bus_step(3));
+  g.add(g.mk("check"));
+  return g.p;
+}
+
 }  // namespace
 
 Plan generate(const std::string &prop, uint64_t seed, bool thorough) {
@@ -951,6 +1015,7 @@ Plan generate(const std::string &prop, uint64_t seed, bool thorough) {
   if (prop == "C09") return gen_c09(seed, thorough);
   if (prop == "C06") return gen_c06(seed, thorough);
   if (prop == "C18") return gen_c18(seed, thorough);
+  if (prop == "C14") return gen_c14(seed, thorough);
   core::harness_error("no generator for property %s", prop.c_str());
 }
 
